@@ -27,6 +27,10 @@ ASSUMPTIONS = [
     "of the theorem; day/week/month/quarter/year: |n| <= 2^31 and instants within +-557 000 years",
     "Go's zero Time (0001-01-01 00:00:00 UTC) is mapped to 0 by every ToX helper (library rule); it is "
     "outside every documented range and excluded by hypothesis",
+    "the scalar functions are TRANSLATED from /repo/proto/*.go on every run (translator/minigo.go -> "
+    "coq/gen/ScalFuns.v) and proved equal to the hand model (theorem scalar_model_is_source); trusted there: "
+    "the MiniGo translator (fragment grammar, wrap/quot/rem semantics and the primitive table at the head of "
+    "minigo.go: time.Time methods, time.Unix/Date, netip, binary.BigEndian mapped to the Scalars.v definitions)",
 ]
 
 RULE = ("one transcript line is a batch: a sweep of consecutive/strided days or seconds in one zone at one "
@@ -35,7 +39,24 @@ RULE = ("one transcript line is a batch: a sweep of consecutive/strided days or 
         "boundary lists and a seeded random stream cover DateTime, DateTime64 at precisions 0..9, the "
         "128/256-bit, IPv4/IPv6 helpers and Interval.Add, about one line in eight outside every documented "
         "range. evaluations = instants/values converted; distinct_nontrivial = distinct batch lines for "
-        "which the implementation returned values (a panic class counts once per operation)")
+        "which the implementation returned values (a panic class counts once per operation). "
+        "Independently of the generated inputs, the scalar conversion functions themselves are translated from "
+        "the Go source on each run (coq/gen/ScalFuns.v) and props/C20.v re-proves that each one equals the hand "
+        "model (scalar_model_is_source): an edit of a whitelisted function that changes its meaning, or leaves "
+        "the translatable fragment, breaks the proof step even if no generated input hits it")
+
+
+def translated_functions():
+    """The go_* definitions the translator wrote on this run, and the ones it could not translate."""
+    path = os.path.join(C.COQ, "gen", "ScalFuns.v")
+    try:
+        text = open(path).read()
+    except OSError:
+        return [], ["coq/gen/ScalFuns.v was not written"]
+    m = re.search(r"^\(\* translated: (.*) \*\)$", text, re.M)
+    ok = m.group(1).split() if m else []
+    failed = re.findall(r"^\(\* TRANSLATION FAILED: (.*) \*\)$", text, re.M)
+    return ok, failed
 
 
 def par_eval(fam, lines):
@@ -103,6 +124,20 @@ def explore(res, scale=1, seed=None):
     os.remove(out)
     res.assumptions = ASSUMPTIONS
     res.extra["rule"] = RULE
+    res.extra["trusted_base"] = [
+        "translator/minigo*.go: the MiniGo fragment (grammar, wrap / Z.quot / Z.rem / panic-as-None semantics) and its "
+        "primitive table mapping Go's time, net/netip, math and encoding/binary calls to the definitions of "
+        "coq/model/Scalars.v (time.Time methods, time.Unix, time.Date, Addr.As4/As16, AddrFrom4/16, BigEndian.Uint32/PutUint32)"]
+    ok, failed = translated_functions()
+    res.extra["translated_functions"] = ok
+    if failed:
+        res.extra["untranslatable"] = failed
+        note = "translator/minigo.go could not translate (outside the MiniGo fragment): " + "; ".join(failed)
+        if note not in res.notes:
+            res.notes.append(note)
+    elif not any("translated from the Go source" in n for n in res.notes):
+        res.notes.append("%d scalar functions translated from the Go source on this run (coq/gen/ScalFuns.v) and "
+                         "proved equal to the hand model (scalar_model_is_source)" % len(ok))
 
 
 def replay(res, path):
